@@ -89,9 +89,9 @@ theorem txPos_of_agreeJ {C : List Occ} {s : Store} {X Y : Book} (hA : AgreeJ s X
 /-- **connecting the next block of the node's chain on a joined store** (`X` = the follower's stored chain, a prefix of
     the node's chain; `b` the node's next block): the live follower books it for the ready wallets; `w`'s half stays
     "up to the cursor" -/
-theorem connect_scanJS {c : Ctx} {w : Wid} {s : Store} {b : Block} {k : Nat} {ws : WStatus} {X rest : List Block}
+theorem connect_scanJS' {c : Ctx} {w : Wid} {s : Store} {b : Block} {k : Nat} {X rest : List Block}
     (hKN : KeysNodup c.own) (hC : ChainOK c) (hnode : c.node.chain = X ++ b :: rest) (hS : ScanJS c w s X k)
-    (hst : AMap.get s.status w = some ws) (hk : ws.synced = some k) (hlen : k + 1 ≤ X.length)
+    (hnr : (readyWallets s c.wallets).contains w = false) (hlen : k + 1 ≤ X.length)
     (hAR : AllReady (ownR c.own w) (readyWallets s c.wallets)) (hne : (readyWallets s c.wallets).isEmpty = false) :
     ∃ s' conf, filterBlock c s (readyWallets s c.wallets) b = .ok (s', conf) ∧
       ScanJS c w s' (X ++ [b]) k ∧ s'.status = s.status ∧ (KeysNodup s.unspent → KeysNodup s'.unspent) := by
@@ -108,14 +108,6 @@ theorem connect_scanJS {c : Ctx} {w : Wid} {s : Store} {b : Block} {k : Nat} {ws
   have hVr' : ChainValid (ownR c.own w) (X ++ [b]) := chainValid_sub hOr hV'
   have hVr : ChainValid (ownR c.own w) X := chainValid_prefix hVr'
   have hlen0 : 0 < X.length := by omega
-  -- `w` is not ready
-  have hnr : (readyWallets s c.wallets).contains w = false := by
-    cases hc : (readyWallets s c.wallets).contains w with
-    | false => rfl
-    | true =>
-      have := ((ready_contains_iff s c.wallets w).1 hc).2
-      rw [hst] at this
-      simp [hk] at this
   have hrk : ∀ w', (readyWallets s c.wallets).contains w' = true → w' ≠ w := by
     intro w' hw' he; rw [he, hnr] at hw'; cases hw'
   -- the two halves, separated both ways (relative to the longer chain)
@@ -346,18 +338,54 @@ theorem connect_scanJS {c : Ctx} {w : Wid} {s : Store} {b : Block} {k : Nat} {ws
     exact hU1 hU
 
 
+/-- a wallet whose restore cursor is set is not ready -/
+theorem notReady_of_synced {s : Store} {l : List Wid} {w : Wid} {ws : WStatus} {k : Nat}
+    (hst : AMap.get s.status w = some ws) (hk : ws.synced = some k) : (readyWallets s l).contains w = false := by
+  cases hc : (readyWallets s l).contains w with
+  | false => rfl
+  | true =>
+    have := ((ready_contains_iff s l w).1 hc).2
+    rw [hst] at this
+    simp [hk] at this
+
+/-- a wallet flagged for removal is not ready -/
+theorem notReady_of_removed {s : Store} {l : List Wid} {w : Wid} {ws : WStatus}
+    (hst : AMap.get s.status w = some ws) (hr : ws.removed = true) : (readyWallets s l).contains w = false := by
+  cases hc : (readyWallets s l).contains w with
+  | false => rfl
+  | true =>
+    have := ((ready_contains_iff s l w).1 hc).2
+    rw [hst] at this
+    simp [hr] at this
+
+/-- `connect_scanJS'` for a wallet being restored (cursor `k`) -/
+theorem connect_scanJS {c : Ctx} {w : Wid} {s : Store} {b : Block} {k : Nat} {ws : WStatus} {X rest : List Block}
+    (hKN : KeysNodup c.own) (hC : ChainOK c) (hnode : c.node.chain = X ++ b :: rest) (hS : ScanJS c w s X k)
+    (hst : AMap.get s.status w = some ws) (hk : ws.synced = some k) (hlen : k + 1 ≤ X.length)
+    (hAR : AllReady (ownR c.own w) (readyWallets s c.wallets)) (hne : (readyWallets s c.wallets).isEmpty = false) :
+    ∃ s' conf, filterBlock c s (readyWallets s c.wallets) b = .ok (s', conf) ∧
+      ScanJS c w s' (X ++ [b]) k ∧ s'.status = s.status ∧ (KeysNodup s.unspent → KeysNodup s'.unspent) :=
+  connect_scanJS' hKN hC hnode hS (notReady_of_synced hst hk) hlen hAR hne
+
+/-- the cursor pull-back leaves a status without cursor (ready, or flagged for removal) alone -/
+theorem pullBack_get_none {status : AMap.T Wid WStatus} {n : Nat} {x : Wid} {ws : WStatus}
+    (h : AMap.get status x = some ws) (hn : ws.synced = none) : AMap.get (status.map (pullBack n)) x = some ws := by
+  rw [pullBack_get, h]
+  simp only [Option.map_some, hn]
+
+
 -- ------------------------------------------------------------------ disconnecting the tip block AT the cursor
 
 /-- **disconnecting the tip block when the cursor of the wallet being restored is AT the tip**: the joined store is
     then the books of the FULL keystore table for the stored chain, C01's rollback undoes the block for both halves
     (Rollback looks owners up in all keystores and works on all balances), and the cursor is pulled back to the new tip -/
-theorem disconnect_scanJS_at {c : Ctx} {w : Wid} {s : Store} {chain : List Block} {b : Block} {ws : WStatus}
+theorem disconnect_scanJS_at' {c : Ctx} {w : Wid} {s : Store} {chain : List Block} {b : Block}
     (hKN : KeysNodup c.own) (hV : ChainValid c.own (chain ++ [b])) (hH : HeightsOK (chain ++ [b])) (hne : chain ≠ [])
     (hkn : AMap.get c.node.known b.id = some b) (hS : ScanJS c w s (chain ++ [b]) chain.length)
-    (hst : AMap.get s.status w = some ws) (hk : ws.synced = some chain.length)
     (hAR : AllReady (ownR c.own w) (readyWallets s c.wallets)) :
     ∃ s', disconnectBlock c s b.height = .ok s' ∧ ScanJS c w s' chain (chain.length - 1) ∧
-      AMap.get s'.status w = some { ws with synced := some (chain.length - 1) } ∧
+      s'.status = s.status.map (pullBack (b.height - 1)) ∧
+      (∀ x ws, AMap.get s.status x = some ws → ws.synced = none → AMap.get s'.status x = some ws) ∧
       (∀ l, readyWallets s' l = readyWallets s l) := by
   have hOr := ownR_sub hKN w
   have hOw := ownW_sub hKN w
@@ -416,7 +444,7 @@ theorem disconnect_scanJS_at {c : Ctx} {w : Wid} {s : Store} {chain : List Block
   have hrdy : ∀ l, readyWallets s' l = readyWallets s l := fun l => (e11 l).trans (readyWallets_congr hstat1 l)
   have hk1 : chain.take (chain.length - 1 + 1) = chain := by
     rw [show chain.length - 1 + 1 = chain.length by omega, List.take_length]
-  refine ⟨s', hd, ?_, ?_, hrdy⟩
+  refine ⟨s', hd, ?_, by rw [e10, hstat1], ?_, hrdy⟩
   · refine ⟨?_, ?_, ?_, ?_, ?_, ?_, ?_⟩
     · rw [hk1]
       constructor
@@ -444,10 +472,26 @@ theorem disconnect_scanJS_at {c : Ctx} {w : Wid} {s : Store} {chain : List Block
     · intro h'
       rw [e8, hsy1]; exact sync_erase_tip hbh hS.sync h'
     · rw [e9]; omega
-  · rw [e10, pullBack_get, hstat1, hst]
-    simp only [Option.map_some, hk]
-    have hgt : chain.length > b.height - 1 := by omega
-    simp only [hgt, if_true]
-    rw [hbh]
+  · intro x ws hx hn
+    rw [e10, hstat1]; exact pullBack_get_none hx hn
+
+/-- `disconnect_scanJS_at'` for a wallet being restored: its cursor is pulled back to the new tip -/
+theorem disconnect_scanJS_at {c : Ctx} {w : Wid} {s : Store} {chain : List Block} {b : Block} {ws : WStatus}
+    (hKN : KeysNodup c.own) (hV : ChainValid c.own (chain ++ [b])) (hH : HeightsOK (chain ++ [b])) (hne : chain ≠ [])
+    (hkn : AMap.get c.node.known b.id = some b) (hS : ScanJS c w s (chain ++ [b]) chain.length)
+    (hst : AMap.get s.status w = some ws) (hk : ws.synced = some chain.length)
+    (hAR : AllReady (ownR c.own w) (readyWallets s c.wallets)) :
+    ∃ s', disconnectBlock c s b.height = .ok s' ∧ ScanJS c w s' chain (chain.length - 1) ∧
+      AMap.get s'.status w = some { ws with synced := some (chain.length - 1) } ∧
+      (∀ l, readyWallets s' l = readyWallets s l) := by
+  obtain ⟨s', hd, hS', hstat, _, hrdy⟩ := disconnect_scanJS_at' hKN hV hH hne hkn hS hAR
+  refine ⟨s', hd, hS', ?_, hrdy⟩
+  have hbh : b.height = chain.length := heightsOK_mid hH
+  have hlen : chain.length ≠ 0 := fun h => hne (List.eq_nil_of_length_eq_zero h)
+  rw [hstat, pullBack_get, hst]
+  simp only [Option.map_some, hk]
+  have hgt : chain.length > b.height - 1 := by omega
+  simp only [hgt, if_true]
+  rw [hbh]
 
 end MW.Lemmas.ImportJoin
